@@ -31,6 +31,8 @@ type cfg struct {
 	log2Page     uint64
 	stream, post []reqSpec
 	flushAt      int
+	flush2At     int       // second flush this many cycles after the first restart was acknowledged; 0 = none
+	post2        []reqSpec // injected after the second restart
 	restartDelay int
 	// twoTLBs: two translation providers interleaved by virtual page; singleMem: one memory module instead of two
 	// interleaved by physical page (the builder's other mapper types)
@@ -104,6 +106,7 @@ func body(c cfg) explore.Body {
 		byID := map[string]*acc{}
 		byFwd := map[string]*acc{}
 		flushed, restarted := false, false
+		nCtlAcks := 0
 		var trace bytes.Buffer
 		expPAddr := func(a *acc) uint64 {
 			va := a.req.GetAddress()
@@ -207,8 +210,9 @@ func body(c cfg) explore.Body {
 			}
 		})
 		world.OnSend(ctl, func(m sim.Msg) {
-			if !flushed {
-				flushed = true
+			nCtlAcks++
+			if nCtlAcks%2 == 1 {
+				flushed, restarted = true, false
 				for _, a := range accepted {
 					if !a.answered {
 						a.discarded = true
@@ -280,7 +284,12 @@ func body(c cfg) explore.Body {
 		}
 		topSink := &world.Sink{W: w, Port: top, Tag: "top", StallAlphabet: []int{1, 4}}
 		topSink.Handle = func(m sim.Msg) {}
-		fc := &world.FlushCtl{W: w, Port: ctl, Name: ctlName, At: c.flushAt, RestartDelay: c.restartDelay}
+		fc := &world.FlushCtl{W: w, Port: ctl, Name: ctlName, At: c.flushAt, RestartDelay: c.restartDelay, At2: c.flush2At}
+		fc.OnRestarted2 = func() {
+			for i, s := range c.post2 {
+				src.Add(mkReq(s, 12+i, reqName, top.AsRemote()), true)
+			}
+		}
 		fc.MkDiscard = func() sim.Msg {
 			return mem.ControlMsgBuilder{}.WithSrc(ctlName).WithDst(ctl.AsRemote()).ToDiscardTransactions().Build()
 		}
@@ -325,8 +334,11 @@ func body(c cfg) explore.Body {
 		want := len(c.stream)
 		if c.flushAt > 0 {
 			want += len(c.post)
-			if fc.Acks != 2 {
-				return explore.Viol("flush-not-acknowledged", "control acks=%d", fc.Acks)
+			if c.flush2At > 0 {
+				want += len(c.post2)
+			}
+			if fc.Acks != fc.WantAcks() {
+				return explore.Viol("flush-not-acknowledged", "control acks=%d want %d", fc.Acks, fc.WantAcks())
 			}
 		}
 		if len(accepted) != want {
@@ -396,6 +408,23 @@ func main() {
 			add(fmt.Sprintf("stream0/width1/flush@%d/restart+%d", fa, rd), cfg{width: 1, log2Page: 12, stream: streams[0], post: post, flushAt: fa, restartDelay: rd}, bound-1)
 		}
 		add(fmt.Sprintf("stream1/width2/flush@%d/restart+0", fa), cfg{width: 2, log2Page: 12, stream: streams[1], post: post, flushAt: fa}, bound-1)
+	}
+	// two flush/restart rounds: the second flush meets a translator that was already flushed and restarted once and is
+	// serving the traffic injected after the first restart (same page as discarded accesses: a stale translation must not be reused)
+	post2 := []reqSpec{{true, 0x1050, 8, 1, false}, {false, 0x2058, 4, 2, false}}
+	flush2, first := []int{2, 4}, []int{3, 5}
+	if r.Thorough() {
+		flush2, first = []int{1, 2, 3, 4, 5, 7, 9}, []int{2, 3, 4, 5, 6, 8}
+	}
+	for _, fa := range first {
+		for _, f2 := range flush2 {
+			add(fmt.Sprintf("stream0/width1/flush@%d/restart+0/flush2@+%d", fa, f2),
+				cfg{width: 1, log2Page: 12, stream: streams[0], post: post, flushAt: fa, flush2At: f2, post2: post2}, bound-1)
+			if r.Thorough() {
+				add(fmt.Sprintf("stream1/width2/flush@%d/restart+3/flush2@+%d", fa, f2),
+					cfg{width: 2, log2Page: 12, stream: streams[1], post: post, flushAt: fa, restartDelay: 3, flush2At: f2, post2: post2}, bound-2)
+			}
+		}
 	}
 	r.Assume = []string{
 		"requester sends no new request between the flush request and the restart acknowledgement",
